@@ -209,6 +209,59 @@ func c19run(c *fw.Ctx, idx int) {
 		for i := 3 + r.Intn(6); i > 0; i-- {
 			mk(ascii(), fmt.Sprintf("f%d-%d", idx, i))
 		}
+		// symbolic links below the root: one to a directory and one to nothing are no templates; one to a regular file
+		// may be reported or not, but if it is, Open yields the file's content
+		links := map[string]string{}
+		if idx%3 == 0 {
+			var aFile, aDir string
+			for p := range files {
+				aFile = p
+				break
+			}
+			for d := range dirs {
+				if d != "/" {
+					aDir = d
+					break
+				}
+			}
+			ln := func(name, target string) {
+				if target == "" {
+					return
+				}
+				if os.Symlink(filepath.Join(root, filepath.FromSlash(target)), filepath.Join(root, name)) == nil {
+					links["/"+name] = target
+					hist = append(hist, c19op{Op: "Symlink", Path: "/" + name, Content: "-> " + target})
+				}
+			}
+			ln("zz-link-to-file", aFile)
+			ln("zz-link-to-dir", aDir)
+			ln("zz-dangling-link", "/no/such/target")
+		}
+		checkLinks := func() bool {
+			for name, target := range links {
+				c.Count("symlink_queries", 1)
+				got := l.Exists(name)
+				content, isFile := files[target]
+				switch {
+				case got && !isFile:
+					what := "nothing"
+					if dirs[target] {
+						what = "a directory"
+					}
+					viol("exists-wrong", fmt.Sprintf("Exists(%q)=true but it is a symbolic link to %s", name, what))
+					return false
+				case got:
+					if s, err := c19read(l, name); err != nil || s != content {
+						viol("open-content", fmt.Sprintf("Open(%q) = %q, %v; the link points to a file holding %q", name, s, err, content))
+						return false
+					}
+				}
+			}
+			return true
+		}
+		if !checkLinks() {
+			return
+		}
 		check := func() bool {
 			var all []string
 			for p := range universe {
@@ -354,7 +407,36 @@ func c19run(c *fw.Ctx, idx int) {
 			ls = append(ls, m)
 		}
 		active := 1 + r.Intn(k)
-		ml := multi.NewLoader(ls[:active]...)
+		// the stack: loaders in order; one member may itself be a multi loader (edited after it became a member)
+		outerList := []int{}
+		for i := 0; i < active; i++ {
+			outerList = append(outerList, i)
+		}
+		var inner *multi.Multi
+		var innerList []int
+		members := append([]jet.Loader{}, ls[:active]...)
+		if idx%2 == 0 && active < k {
+			inner = multi.NewLoader(ls[active])
+			innerList = []int{active}
+			at := r.Intn(len(members) + 1)
+			members = append(members[:at], append([]jet.Loader{inner}, members[at:]...)...)
+			outerList = append(outerList[:at], append([]int{-1}, outerList[at:]...)...)
+			active++
+			hist = append(hist, c19op{Op: fmt.Sprintf("nested multi loader as member %d of the outer one", at)})
+			c.Count("nested_multi_stacks", 1)
+		}
+		ml := multi.NewLoader(members...)
+		order := func() []int {
+			var o []int
+			for _, e := range outerList {
+				if e >= 0 {
+					o = append(o, e)
+				} else {
+					o = append(o, innerList...)
+				}
+			}
+			return o
+		}
 		models := make([]map[string]string, k)
 		for i := range models {
 			models[i] = map[string]string{}
@@ -378,13 +460,20 @@ func c19run(c *fw.Ctx, idx int) {
 				delete(models[li], cn)
 			case 4:
 				if active < k {
-					hist = append(hist, c19op{Op: "AddLoaders", Loader: active})
-					ml.AddLoaders(ls[active])
+					if inner != nil && r.Intn(2) == 0 {
+						hist = append(hist, c19op{Op: "AddLoaders(nested)", Loader: active})
+						inner.AddLoaders(ls[active])
+						innerList = append(innerList, active)
+					} else {
+						hist = append(hist, c19op{Op: "AddLoaders", Loader: active})
+						ml.AddLoaders(ls[active])
+						outerList = append(outerList, active)
+					}
 					active++
 				}
 			default:
 				first, holders := -1, 0
-				for li := 0; li < active; li++ {
+				for _, li := range order() {
 					if _, ok := models[li][cn]; ok {
 						holders++
 						if first < 0 {
